@@ -449,6 +449,10 @@ def load_program(repo=None, extra_defs=(), want_tool=True, cache=True):
     return prog
 
 
+PURE_LIBC = ("strlen", "strcmp", "strncmp", "strcasecmp", "strncasecmp", "memcmp", "tolower", "toupper", "isalpha", "isdigit",
+             "isalnum", "isspace", "isxdigit", "abs")
+
+
 def _return_chain(f, st):
     """the single expression a body of the shape `if (c1) return e1; if (c2) return e2; ... return en;` computes:
     c1 ? e1 : (c2 ? e2 : ... en); None when the body has another shape"""
@@ -542,12 +546,12 @@ def inline_expression_functions(prog):
     alike to every rule.  Only calls whose arguments are themselves free of side effects are replaced.  Returns the number of
     replaced calls."""
     import copy
-    SIDE = ("CallExpr", "CompoundAssignOperator", "StmtExpr")
+    SIDE = ("CompoundAssignOperator", "StmtExpr")
 
     def pure(e):
         for m in walk(e):
             k = m.get("kind")
-            if k in SIDE:
+            if k in SIDE or (k == "CallExpr" and callee_name(m) not in PURE_LIBC):
                 return False
             if k == "BinaryOperator" and m.get("opcode") == "=":
                 return False
@@ -566,9 +570,9 @@ def inline_expression_functions(prog):
         if e is None:
             continue
         ps = prog.params(f)
-        if any("*" in qtype(p) or "[" in qtype(p) for p in ps):
-            continue
-        # the expression may call other candidates only; checked after the candidate set is known
+        if any(("*" in qtype(p) or "[" in qtype(p)) and "const" not in qtype(p) for p in ps):
+            continue        # a pointer the helper could write through; pointers to const are only read
+        # the expression may call other candidates (and side-effect-free libc functions) only; checked after the candidate set is known
         cands[name] = (f, ps, e)
     changed = True
     while changed:          # drop candidates that call a non-candidate or themselves, or have other side effects
@@ -577,7 +581,7 @@ def inline_expression_functions(prog):
             ok = True
             for m in walk(e):
                 k = m.get("kind")
-                if k == "CallExpr" and (callee_name(m) not in cands or callee_name(m) == name):
+                if k == "CallExpr" and (callee_name(m) not in cands or callee_name(m) == name) and callee_name(m) not in PURE_LIBC:
                     ok = False
                 if k in ("CompoundAssignOperator", "StmtExpr") or (k == "BinaryOperator" and m.get("opcode") == "=") or \
                         (k == "UnaryOperator" and m.get("opcode") in ("++", "--")):
